@@ -224,10 +224,11 @@ func newRig(sc *Scenario) *rig {
 }
 
 func (r *rig) close(actorAlive bool) {
+	// The hub is deliberately not stopped: component.Stop runs Syncer.BeforeStop on the caller's
+	// goroutine (outside the actor), which is not part of the property and crashes on a half-reset
+	// syncer.  The idle actor is left behind; the child process is short-lived.
 	atomic.StoreInt32(&r.closed, 1)
-	if actorAlive {
-		r.hub.Stop()
-	}
+	_ = actorAlive
 }
 
 // ---- scheduling of replies -------------------------------------------------------------------
@@ -706,11 +707,11 @@ func (r *rig) onGetHashes(s *session, m *message.GetHashes) {
 		}
 	case "many":
 		hs := mk(s.remote, prev+1, cnt+1)
-		cntField := uint64(len(hs))
-		if h64(r.sc.Seed, "manycount", prev)%2 == 0 {
-			cntField = cnt // claims the requested count but carries one more
-		}
-		send(&message.GetHashesRsp{Seq: m.Seq, PrevInfo: m.PrevInfo, Hashes: hs, Count: cntField}, d)
+		// claims the requested count but carries one more hash
+		send(&message.GetHashesRsp{Seq: m.Seq, PrevInfo: m.PrevInfo, Hashes: hs, Count: cnt}, d)
+	case "manycount":
+		hs := mk(s.remote, prev+1, cnt+1)
+		send(&message.GetHashesRsp{Seq: m.Seq, PrevInfo: m.PrevInfo, Hashes: hs, Count: uint64(len(hs))}, d)
 	case "prev":
 		pi := &types.BlockInfo{Hash: s.remote.hashAt(prev + 1), No: prev + 1}
 		hs := mk(s.remote, prev+2, cnt)
